@@ -468,6 +468,11 @@ class World(object):
                         q = b.queues.get(qn)
                         if q and q.messages:
                             q.messages[0].redelivered = True
+            elif kind == "sleep":
+                # downtime: nothing runs while the clock moves on
+                self.clock.now += label[1]
+                b.expire()
+                b.log("sleep", seconds=label[1], site=None)
             elif kind == "arm_crash":
                 # the process will die right after the k-th broker operation of the next step
                 b.crash_after_ops = label[1]
